@@ -385,6 +385,7 @@ def c19(tier, seed):
     for i in range(len(docs)):
         ns = list(names)
         rng.shuffle(ns)
+        ns = ns[:150]          # (thorough: a different sample of the 1000 names per document)
         stimuli.append((i + 1, tuple([".".join(n) for n in ns[: len(ns) // 2]] + ["go"] + [".".join(n) for n in ns[len(ns) // 2:]])))
 
     def key(cls, doc, run, pos):
